@@ -429,7 +429,7 @@ Definition rfind_ch (s : fs) (ch pos : N) : res N :=
   let ln := len s in
   if (ln <? pos +! 1) || (ln =? 0) then Ok NPOS
   else
-    let pos' := if pos =? NPOS then ln else pos in
+    let pos' := if pos =? NPOS then ln -! 1 else pos in
     scan_down fuel (fun idx => do a <- rd (buf s) idx; Ok (a =? ch)) (pos' +! 1).
 
 (** test used by the strchr based implementations / by the explicit loops *)
